@@ -224,6 +224,7 @@ func c16Round2(c *Ctx) {
 	for _, fr := range doc.Fragments {
 		nest(fr.SelectionSet, 0)
 	}
+	defer standardQuerySelections(c, doc)
 	c.R.Check(depth >= 7, "introspection.Query/ofType-depth", "graphql/introspection/query.go", sprintf("ofType nested %d deep", depth), sprintf("the standard introspection query unwraps only %d levels of ofType: a field of type [[[Int!]!]!]! is described without its named type, so the schema cannot be rebuilt", depth))
 }
 
